@@ -39,6 +39,8 @@ pub struct Report {
     pub shapes: Vec<u64>,
     pub event_hash: u64,
     pub transitions: u64,
+    /// seam events executed for this scenario (deterministic measure of work)
+    pub events: u64,
     /// profiling only (real time; never influences a verdict)
     pub wall_us: u64,
 }
@@ -54,6 +56,7 @@ impl Report {
     }
     pub fn absorb(&mut self, out: &crate::sim::Outcome) {
         self.runs += 1;
+        self.events += out.log.len() as u64;
         self.sim_ns = self.sim_ns.saturating_add(out.sim_ns.min(1 << 50));
         self.traces.push(out.kind_trace_hash());
         for c in &out.calls {
@@ -291,8 +294,8 @@ pub fn run_check(env: &Arc<Env>, check: Arc<dyn Check>, tier: Tier) -> i32 {
     let mut shapes: BTreeSet<u64> = BTreeSet::new();
     let mut nontrivial: BTreeSet<u64> = BTreeSet::new();
     let mut transitions = 0u64;
-    // sig -> (first scenario, property, count, detail)
-    let mut by_sig: BTreeMap<String, (Scenario, &'static str, u64, String)> = BTreeMap::new();
+    // sig -> (cheapest scenario (fewest seam events; first such in index order), property, count, detail, its events)
+    let mut by_sig: BTreeMap<String, (Scenario, &'static str, u64, String, u64)> = BTreeMap::new();
     let mut families: BTreeMap<String, u64> = BTreeMap::new();
     let mut slow: Vec<(u64, u64, String)> = vec![];
     let mut samples: Vec<serde_json::Value> = vec![];
@@ -324,8 +327,11 @@ pub fn run_check(env: &Arc<Env>, check: Arc<dyn Check>, tier: Tier) -> i32 {
             }
             *families.entry(format!("{}/{}/{}", scn.family, scn.planner.kind.name(), crate::spaces::kind_name(&scn.space))).or_insert(0) += 1;
             for v in &rep.violations {
-                let e = by_sig.entry(v.sig.clone()).or_insert_with(|| (scn.clone(), v.property, 0, v.detail.clone()));
+                let e = by_sig.entry(v.sig.clone()).or_insert_with(|| (scn.clone(), v.property, 0, v.detail.clone(), rep.events));
                 e.2 += 1;
+                if rep.events < e.4 {
+                    *e = (scn.clone(), v.property, e.2, v.detail.clone(), rep.events);
+                }
             }
             digest.u64(sh);
             digest.u64(rep.event_hash);
@@ -354,7 +360,11 @@ pub fn run_check(env: &Arc<Env>, check: Arc<dyn Check>, tier: Tier) -> i32 {
     let mut n_viol = 0u64;
     let mut known_hit = vec![];
     let mut replays = vec![];
-    for (sig, (scn, prop, count, detail)) in &by_sig {
+    // minimisation is bounded by a deterministic amount of work (seam events executed by the
+    // candidate runs), per signature and in total, so that a check on a badly broken tree
+    // (hundreds of hanging scenarios) still reports within a minute or two
+    let mut work_total: u64 = 400_000_000;
+    for (sig, (scn, prop, count, detail, _)) in &by_sig {
         let prop = *prop;
         if let Some(what) = known.lookup(prop, sig) {
             env.say(&format!("KNOWN-FINDING: property={prop} {sig} — {what} ({count} scenarios in this run)"));
@@ -367,7 +377,10 @@ pub fn run_check(env: &Arc<Env>, check: Arc<dyn Check>, tier: Tier) -> i32 {
         }
         n_viol += count;
         exit = 1;
-        let (min_scn, min_rep) = crate::minimise::minimise(&*check, scn, sig);
+        let mut work = work_total.min(80_000_000);
+        let before = work;
+        let (min_scn, min_rep) = crate::minimise::minimise(&*check, scn, sig, &mut work);
+        work_total = work_total.saturating_sub(before - work);
         let path = write_replay(env, &min_scn, sig, min_rep.event_hash);
         env.say(&format!("VIOLATION property={} replay={} sig={} count={} :: {}", check.id(), path, sig, count, detail));
         replays.push(path);
